@@ -7,7 +7,7 @@ cp $SRC/patch.diff $SRC/demo.py $SRC/meta.json $DST/
 [ -f $SRC/build_cpp.py ] && cp $SRC/build_cpp.py $DST/
 git -C /repo worktree remove --force /tmp/${SEEDROOT:-seed5}/$P 2>/dev/null || true
 rm -rf /tmp/${SEEDROOT:-seed5}/$P
-cd /verif && /venv/bin/python harness/seedtest.py seeded/$P-$SUF --checks all $3 2>&1 | python3 -c "
+cd /verif && /venv/bin/python harness/seedtest.py seeded/$P-$SUF --checks ${CHECKS:-all} $3 2>&1 | python3 -c "
 import sys,json
 t=sys.stdin.read()
 try:
